@@ -86,6 +86,7 @@ fn learned_size(addr: usize) -> Option<usize> {
 
 #[derive(Serialize, Deserialize, Clone, Debug, PartialEq)]
 struct ReqSpec {
+    /// "raw" = a bare actix_http Request::new() (GET / HTTP/1.1, nothing else is conveyed),
     /// "test" = actix_web TestRequest::to_request, "httptest" = actix_http TestRequest::finish,
     /// "conn" = bytes through an HTTP/1 connection (decoder + dispatcher)
     via: String,
@@ -545,7 +546,9 @@ async fn make_app() -> BoxedApp {
 
 fn build_request(spec: &ReqSpec, uri: &str) -> Request {
     let method = Method::from_bytes(spec.method.as_bytes()).unwrap();
-    let mut req = if spec.via == "httptest" {
+    let mut req = if spec.via == "raw" {
+        Request::new()
+    } else if spec.via == "httptest" {
         let mut t = actix_http::test::TestRequest::default();
         t.method(method).uri(uri).version(code_ver(spec.version));
         for (k, v) in &spec.headers {
@@ -884,6 +887,7 @@ fn coq_req(spec: &ReqSpec) -> String {
             ("PH1", conn_flags(spec), Some(conn_peer(spec.conn)), Some(c))
         }
         "httptest" => ("PHttpTest", spec.ctype, None, None),
+        "raw" => ("PRaw", 0, None, None),
         _ => ("PTest", spec.ctype, spec.peer, None),
     };
     let mut headers = spec.headers.clone();
@@ -983,7 +987,8 @@ fn gen_req(rng: &mut Rng, conn_ok: bool, httptest_ok: bool) -> ReqSpec {
     debug_assert_eq!(params.len(), rt.nparams);
     let via = match rng.below(100) {
         0..=5 if httptest_ok => "httptest",
-        6..=25 if conn_ok => "conn",
+        6..=9 if httptest_ok => "raw",
+        10..=29 if conn_ok => "conn",
         _ => "test",
     }
     .to_string();
@@ -1036,7 +1041,7 @@ fn gen_req(rng: &mut Rng, conn_ok: bool, httptest_ok: bool) -> ReqSpec {
 }
 
 fn gen_history(rng: &mut Rng, target: usize, big_bursts: bool) -> Vec<Step> {
-    let httptest_ok = rng.chance(3, 20);
+    let httptest_ok = rng.chance(1, 2); // histories with the partial producers (actix_http test builder, Request::new())
     let conn_ok = rng.chance(3, 5);
     let mut steps = vec![];
     let mut nreq = 0;
@@ -1084,7 +1089,29 @@ fn gen_history(rng: &mut Rng, target: usize, big_bursts: bool) -> Vec<Step> {
 
 // ------------------------------------------------------------------ one case
 
+/// a bare Request::new() conveys nothing: whatever the spec says, it is GET / HTTP/1.1
+fn normalize(steps: Vec<Step>) -> Vec<Step> {
+    steps
+        .into_iter()
+        .map(|s| match s {
+            Step::Req(mut r) if r.via == "raw" => {
+                r.method = "GET".into();
+                r.route = 0;
+                r.params.clear();
+                r.query = None;
+                r.version = 11;
+                r.headers.clear();
+                r.peer = None;
+                r.ctype = 0;
+                Step::Req(r)
+            }
+            other => other,
+        })
+        .collect()
+}
+
 fn make_case(id: String, steps: Vec<Step>) -> (CaseOut, bool) {
+    let steps = normalize(steps);
     let st2 = steps.clone();
     let r = std::thread::spawn(move || catch(|| run_history(&st2))).join().unwrap_or_else(|_| Err("thread panicked".into()));
     let nreq = steps.iter().filter(|s| matches!(s, Step::Req(_))).count();
@@ -1129,7 +1156,9 @@ fn make_case(id: String, steps: Vec<Step>) -> (CaseOut, bool) {
             }
         }
     }
-    let known_class = if has_httptest { "http-test-request-head".to_string() } else { String::new() };
+    // the former known class http-test-request-head is repaired (319fa1c, F30): no known class
+    let _ = has_httptest;
+    let known_class = String::new();
     match r {
         Err(p) => {
             tags.sort();
